@@ -834,7 +834,9 @@ def iee_cfg(hwm: Any, case: dict, a0: int) -> list:
         if mode in ("CTRA", "CTRN", "KSTR"):
             # key2 = initial counter, stored as four little-endian words; low counter word = last stored word
             key2 = {"low0": pat(seed, f"ictr-{idx}", 12) + bytes(4), "seed": pat(seed, f"ictr-{idx}", 16),
-                    "ones": b"\xff" * 16, "lowmax": pat(seed, f"ictr-{idx}", 12) + b"\xff" * 4}[k2p]
+                    "ones": b"\xff" * 16, "lowmax": pat(seed, f"ictr-{idx}", 12) + b"\xff" * 4,
+                    # the low counter word passes 2^32 in the MIDDLE of the region's first 4 KiB unit (2 KiB after its start)
+                    "lowwrap": pat(seed, f"ictr-{idx}", 12) + ((-((a0 + gi * U_IEE) >> 4) - 128) & 0xFFFFFFFF).to_bytes(4, "little")}[k2p]
         else:
             key2 = pat(seed, f"ikey2-{idx}", k2n)
         lock = hwm.LOCK if case.get("lock", 0) else hwm.UNLOCK
@@ -1102,7 +1104,7 @@ def iee_blobapi_cases(ctx: core.Ctx) -> list[dict]:
         for L in IEE_LENGTHS_THOROUGH:
             for uoff in (0, 1, 3):
                 for mk in IEE_CLAIMED + IEE_CRASH_ONLY:
-                    for k2 in (("low0", "lowmax") if mk[0] == "CTRA" else ("low0",)):
+                    for k2 in (("low0", "lowmax", "lowwrap") if mk[0] == "CTRA" else ("low0",)):
                         cases.append({"e": "iee-blobapi", "seed": ctx.seed, "L": L, "win": win, "uoff": uoff, "k2": k2,
                                       "regs": [[0, 9, mk[0], mk[1]]]})
     return cases
@@ -1123,7 +1125,7 @@ def iee_img_cases(ctx: core.Ctx) -> list[dict]:
             for lay in lays:
                 k = len(lay)
                 if k == 1:
-                    combos = [([mk], k2) for mk in IEE_CLAIMED for k2 in (("low0", "seed", "lowmax", "ones") if mk[0] == "CTRA" else ("low0",))]
+                    combos = [([mk], k2) for mk in IEE_CLAIMED for k2 in (("low0", "seed", "lowmax", "ones", "lowwrap") if mk[0] == "CTRA" else ("low0",))]
                     combos += [([mk], k2) for mk in IEE_CRASH_ONLY for k2 in (("low0", "ones") if thorough or L < 8192 else ("low0",))]
                     combos += [([mk], "self") for mk in IEE_CLAIMED]
                 elif k == 2:
@@ -1149,6 +1151,10 @@ def iee_img_cases(ctx: core.Ctx) -> list[dict]:
                         c.update(k2="low0", self=1)
                     if thorough and L >= 8192:
                         c["pieces"] = (U_IEE, 2 * U_IEE)
+                    if k2 == "lowwrap":
+                        # the 32-bit carry is not modelled by the reader, but the result must not depend on where the
+                        # caller cuts the image: pieces smaller than the builder's own 4 KiB chunk
+                        c["pieces"] = (U_IEE, 1024, 16) if L <= 8193 else (U_IEE, 1024)
                     cases.append(c)
     return cases
 
